@@ -871,7 +871,10 @@ def search(ctx, broken):
 # ------------------------------------------------------------------------------------------------
 # thread matrix: the same assemblies in subprocesses with different NUMBA_NUM_THREADS
 
-OPS = ["laplace_slp_p1", "laplace_slp_p1_segment", "maxwell_efield_rwg", "laplace_potential_p1", "identity_p1"]
+# potentials are evaluated at 37, 7, 3 and 1 points: the number of evaluation points is an input size like any other (seeded
+# change C16-d gave "a handful of points" its own branch with a prange reduction over the source quadrature points)
+OPS = ["laplace_slp_p1", "laplace_slp_p1_segment", "maxwell_efield_rwg", "laplace_potential_p1", "identity_p1",
+       "laplace_potential_p1_7pts", "laplace_potential_p1_3pts", "laplace_potential_p1_1pt"]
 
 
 def _worker(ncube, seed, rounds):
@@ -907,8 +910,10 @@ def _worker(ncube, seed, rounds):
         if name == "maxwell_efield_rwg":
             return md5(api.operators.boundary.maxwell.electric_field(rwg, rwg, snc, 1.3, assembler="dense")
                        .weak_form().to_dense())
-        if name == "laplace_potential_p1":
-            pot = api.operators.potential.laplace.single_layer(p1, pts)
+        if name.startswith("laplace_potential_p1"):
+            npts = {"laplace_potential_p1": 37, "laplace_potential_p1_7pts": 7, "laplace_potential_p1_3pts": 3,
+                    "laplace_potential_p1_1pt": 1}[name]
+            pot = api.operators.potential.laplace.single_layer(p1, np.ascontiguousarray(pts[:, :npts]))
             return md5(pot.evaluate(api.GridFunction(p1, coefficients=coeffs)))
         if name == "identity_p1":
             m = api.operators.boundary.sparse.identity(p1, p1, p1).weak_form().to_sparse().tocsr()
